@@ -244,9 +244,9 @@ theorem optimizeExhaustive_infeasible (ops : SpecOps σ K) (ev) (hp : PureEval o
     (st : St σ K) (hfeas : feasible ops ev F s = false) :
     ∃ w st', optimizeExhaustive ops F s st = (.error (.noSolution w), s, st') ∧ st'.tape = st.tape ∧ st'.trace = st.trace := by
   obtain ⟨st1, h1, o1⟩ := allConstraintsPass_pure ops ev hp F s st
-  exact ⟨"Optimization can only be done when all constraints are verified.", st1,
-    by simp only [optimizeExhaustive, h1, hfeas], o1.1, o1.2.1⟩
-
+  obtain ⟨r, st2, h2, o2⟩ := constraintsEvaluations_pure ops ev hp s F.constraints st1
+  exact ⟨"Optimization can only be done when all constraints are verified.", st2,
+    by simp only [optimizeExhaustive, h1, hfeas, h2], o2.1.trans o1.1, o2.2.1.trans o1.2.1⟩
 
 end optimal
 
